@@ -142,7 +142,8 @@ class C19(object):
                         "workers": rnd.choice([1, 1, 2, 3])} for _ in range(rnd.randint(1, 3))]
         return {"entry": "run_iradon", "ncores": ncores, "ystep": ystep, "ny": ny, "full": full, "nang": nang, "ymin": ymin,
                 "zero_cols": rnd.choice(["none", "none", "halves", "random", "random", "one"]), "segments": rnd.choice([1, 2, 2, 3, 5]),
-                "pbp_setmask": rnd.random() < 0.2, "mask_layout": rnd.choice(["c", "c", "f", "t", "view"]),
+                "pbp_setmask": rnd.random() < 0.2, "interp_kind": rnd.choice([None, None, None, "cubic", "nearest"]),
+                "two_objects": rnd.random() < 0.5, "mask_layout": rnd.choice(["c", "c", "f", "t", "view"]),
                 "nonsquare": [rnd.randint(0, 9), rnd.randint(0, 9)],
                 "gs_hist": gs_hist, "sino_layout": rnd.choice(["c", "c", "f", "view", "list_angles"]),
                 "y0_off_steps": off, "r_frac": rnd.uniform(0, 0.85), "phi": rnd.uniform(0, 2 * np.pi), "workers": workers,
@@ -295,6 +296,18 @@ class C19(object):
                                               "run_iradon with these parameters by %.3g (max %.3g)" % (k, len(steps), pad, shift, d, mx))
             if gs.recons.get("iradon") is not got and not np.array_equal(np.asarray(gs.recons.get("iradon")), got):
                 return V("history-dependent", "GrainSinogram.recons['iradon'] is not the reconstruction just returned")
+        if desc.get("two_objects"):
+            # another grain's GrainSinogram is reconstructed in between: what this one stores must stay its own
+            with contextlib.redirect_stdout(io.StringIO()):
+                gs2 = sinogram.GrainSinogram(ImageD11.grain.grain(np.eye(3)), dataset.DataSet())
+                gs2.ssino, gs2.sinoangles, gs2.sino = sino[::-1].copy(), omega, sino[::-1].copy()
+                gs2.update_recon_parameters(pad=pad, shift=shift, y0=y0)
+                other = np.asarray(gs2.recon(method="iradon", workers=1, filter_name=desc["filter"]))
+            meas["second_GrainSinogram"] = 1
+            mine = np.asarray(gs.recons.get("iradon"))
+            if mine.shape != np.asarray(got).shape or not np.array_equal(mine, np.asarray(got)):
+                return V("history-dependent", "after another GrainSinogram object was reconstructed, recons['iradon'] of the first one is "
+                                              "no longer its own reconstruction")
         rs_i, rs_j = geo.step_to_recon(*geo.sample_to_step(sx, sy, ystep), recon_shape=got.shape)
         mi, mj = np.unravel_index(np.argmax(got), got.shape)
         dist = float(np.hypot(mi - rs_i, mj - rs_j))
@@ -468,6 +481,27 @@ class C19(object):
             if not d <= lim:
                 viol = V("not-linear", "iradon(a*s1+s2) differs from a*iradon(s1)+iradon(s2) by %.3g (limit %.3g; empty "
                                        "projections: %s)" % (d, lim, zc))
+        if viol is None and desc.get("interp_kind") and R >= 3:
+            # iradon with the other interpolation kinds it offers (same shifts, same output size as run_iradon uses)
+            kind = desc["interp_kind"]
+            try:
+                with contextlib.redirect_stdout(io.StringIO()):
+                    rk = np.asarray(self.ri.iradon(sino, theta=omega, output_size=sino.shape[0] + pad,
+                                                   projection_shifts=np.full(sino.shape, shift), filter_name=desc["filter"],
+                                                   interpolation=kind, workers=1))
+            except Exception as e:
+                if runner.is_harness_exception(e):
+                    raise
+                rk = None
+                viol = V("raises", "iradon(interpolation=%r) raised %s: %s" % (kind, type(e).__name__, e))
+            if rk is not None:
+                ki, kj = geo.step_to_recon(*geo.sample_to_step(sx, sy, ystep), recon_shape=rk.shape)
+                mi, mj = np.unravel_index(np.argmax(rk), rk.shape)
+                dk = float(np.hypot(mi - ki, mj - kj))
+                meas["interpolation_kind"] = {kind: 1}
+                if dk > (1.5 if kind == "cubic" else 2.0):
+                    viol = V("grain-misplaced", "iradon(interpolation=%r): grain at (%d, %d), the geometry predicts (%.2f, %.2f): %.2f px "
+                                                "(shift %.2f, pad %d)" % (kind, mi, mj, ki, kj, dk, shift, pad))
         if viol is None and desc.get("pbp_setmask") and R >= 3:
             viol = self.pbp_setmask(desc, omega, ny, ymin, ystep, y0, sx, sy, meas, V)
         if viol is None and desc.get("gs_hist"):
